@@ -152,6 +152,16 @@ def parse_tables(rd, strict=True):
                      "convert_children(node, orig_ts, &use_state, cache, true, parent);"):
             if frag not in b:
                 raise Missing("use_node.rs convert: fragment %r not found" % frag)
+        # use -> symbol group structure (since 214a8de the use group keeps orig_ts in both branches; Model.Structure.convert_use_symbol)
+        for frag in ("let mut g = clip_element(node, clip_rect, orig_ts, &use_state, cache);",
+                     "converter::convert_group(node, &use_state, true, cache, &mut g, &|cache, g2| { convert_children(child, new_ts, &use_state, cache, false, g2); })",
+                     "g2.transform = Transform::default();",
+                     "converter::convert_group(node, &use_state, false, cache, parent, &|cache, g| { convert_children(child, new_ts, &use_state, cache, false, g); })",
+                     "} else { orig_ts = orig_ts.pre_concat(new_ts); let linked_to_svg = child.tag_name() == Some(EId::Svg);"):
+            if frag not in b:
+                raise Missing("use_node.rs convert (use -> symbol): fragment %r not found" % frag)
+        if re.search(r"\bg\.transform = ", b):
+            raise Missing("use_node.rs convert: the use group's transform is reassigned (convert_use_symbol expects it kept)")
         t['use_ts'] = chain_to_coq("orig_ts.pre_concat(new_ts)", {
             'orig_ts': 'orig_ts', 'new_ts': chain_to_coq("Transform::default().pre_translate(x, y)", {'x': 'x', 'y': 'y'})})
         t['use_vb_ts'] = chain_to_coq("orig_ts.pre_concat(new_ts)", {
